@@ -69,6 +69,21 @@ namespace c16h
       c.check(d <= tol, key + " refill", [&]{ return std::string(pol == ACC ? "documented as accumulating: second call must give 2*R" : "documented as formatting: second call must give R again (bitwise)")
         + ", deviation " + std::to_string(d) + " at value " + std::to_string(at) + " (R=" + std::to_string(R[at]) + ", got " + std::to_string(ra.first[at]) + ")"; });
     }
+    // bystander: a layout clone (shares the index arrays, own values) of the target must not be touched by the call
+    {
+      auto ot = make();
+      auto by = ot.clone(LAFEM::CloneMode::Layout);
+      auto rb = raw(by);
+      for(size_t k = 0; k < rb.second; ++k) rb.first[k] = marker(k + 1);
+      call(ot);
+      rb = raw(by);
+      auto rt = raw(ot);
+      bool untouched = true, target_ok = (rt.second == R.size());
+      for(size_t k = 0; k < rb.second; ++k) untouched = untouched && (rb.first[k] == marker(k + 1));
+      for(size_t k = 0; target_ok && k < R.size(); ++k) target_ok = (rt.first[k] == R[k]);
+      c.check(untouched, key + " bystander", "a layout clone of the target taken before the call was modified");
+      c.check(target_ok, key + " bystander-target", "assembling into an object that has a layout clone gives another result than into a private object");
+    }
     // (c) marker
     auto oc = make();
     auto rc = raw(oc);
@@ -87,6 +102,31 @@ namespace c16h
       const double tol = (pol == ACC) ? 1e-13 * (big + 3.0) : 0.0;
       c.check(d <= tol, key + " marker", [&]{ return std::string(pol == ACC ? "documented as accumulating: result must be marker + R" : "documented as formatting: result must not depend on the old contents")
         + ", deviation " + std::to_string(d) + " at value " + std::to_string(at) + " (marker=" + std::to_string(marker(at)) + ", R=" + std::to_string(R[at]) + ", got " + std::to_string(rc.first[at]) + ")"; });
+    }
+  }
+
+  /// scaling factor alphabet {0, 1, -1, 0.5}: an accumulating route called with alpha on marker filled objects must give
+  /// marker + alpha * R1 (R1 = result for alpha = 1 on zeroed objects); alpha = 0 must leave the object unchanged (bitwise)
+  template<typename Make_, typename Call_>
+  void alpha_alphabet(verif::Ctx& c, const std::string& key, const Make_& make, const Call_& call)
+  {
+    auto o1 = make();
+    call(o1, 1.0);
+    auto r1 = raw(o1);
+    std::vector<double> R(r1.first, r1.first + r1.second);
+    double big = 1e-300;
+    for(double v : R) big = std::max(big, std::fabs(v));
+    for(double alpha : {0.0, -1.0, 0.5})
+    {
+      auto o = make();
+      auto r = raw(o);
+      for(size_t k = 0; k < r.second; ++k) r.first[k] = marker(k);
+      call(o, alpha);
+      r = raw(o);
+      double d = 0;
+      for(size_t k = 0; k < R.size() && k < r.second; ++k) d = std::max(d, std::fabs(r.first[k] - (marker(k) + alpha * R[k])));
+      c.count("alpha_checks");
+      c.check(d <= (alpha == 0.0 ? 0.0 : 1e-13 * (big + 3.0)), key + " alpha=" + (alpha == 0.0 ? "0" : alpha < 0 ? "-1" : "0.5"), [&]{ return "result is not marker + alpha*R, deviation " + std::to_string(d); });
     }
   }
 
@@ -230,8 +270,117 @@ namespace c16h
         dom_asm.assemble(job);
       });
 
+      // ---- scaling factor alphabet
+      alpha_alphabet(c, kp + "bilinear.matrix1", mk_csr_v, [&](CSR& m, double a) { Assembly::BilinearOperatorAssembler::assemble_matrix1(m, lap, velo, cf, a); });
+      alpha_alphabet(c, kp + "bilinear.matrix2", mk_csr_vp, [&](CSR& m, double a) { Assembly::BilinearOperatorAssembler::assemble_matrix2(m, ident, velo, pres, cf, a); });
+      alpha_alphabet(c, kp + "linfunc.vector", mk_vec_v, [&](Vec& r, double a) { Assembly::LinearFunctionalAssembler::assemble_vector(r, force, velo, cf, a); });
+      alpha_alphabet(c, kp + "gradop.vector", mk_bvec_v, [&](BVec<D>& r, double a) { Assembly::GradOperatorAssembler::assemble(r, pvec, velo, pres, cf, a); });
+      alpha_alphabet(c, kp + "burgers.matrix", mk_bcsr_v, [&](BCSR<D, D>& m, double a) { ba.assemble_matrix(m, conv, velo, cf, a); });
+      alpha_alphabet(c, kp + "burgers.vector", mk_bvec_v, [&](BVec<D>& r, double a) { ba.assemble_vector(r, conv, primal, velo, cf, a); });
+      alpha_alphabet(c, kp + "job.bilinear1", mk_csr_v, [&](CSR& m, double a) { Assembly::assemble_bilinear_operator_matrix_1(dom_asm, m, lap, velo, cn, a); });
+      alpha_alphabet(c, kp + "job.bilinear2", mk_csr_vp, [&](CSR& m, double a) { Assembly::assemble_bilinear_operator_matrix_2(dom_asm, m, ident, velo, pres, cn, a); });
+      alpha_alphabet(c, kp + "job.linfunc", mk_vec_v, [&](Vec& r, double a) { Assembly::assemble_linear_functional_vector(dom_asm, r, force, velo, cn, a); });
+      alpha_alphabet(c, kp + "job.force", mk_vec_v, [&](Vec& r, double a) { Assembly::assemble_force_function_vector(dom_asm, r, sfun, velo, cn, a); });
+      {
+        // FMT routes: scale 0 gives exact zeros, scale -1 the negated matrix
+        BCSR<D, 1> b1 = mk_b(), b0 = mk_b(), bm = mk_b(); BCSR<1, D> d1 = mk_d(), d0 = mk_d(), dm = mk_d();
+        Assembly::GradPresDivVeloAssembler::assemble(b1, d1, velo, pres, cn, 1.0, 1.0);
+        { auto r = raw(b0); for(size_t k = 0; k < r.second; ++k) r.first[k] = marker(k); auto q = raw(d0); for(size_t k = 0; k < q.second; ++k) q.first[k] = marker(k); }
+        Assembly::GradPresDivVeloAssembler::assemble(b0, d0, velo, pres, cn, 0.0, 0.0);
+        Assembly::GradPresDivVeloAssembler::assemble(bm, dm, velo, pres, cn, -1.0, 0.5);
+        auto rb1 = raw(b1), rb0 = raw(b0), rbm = raw(bm), rd1 = raw(d1), rd0 = raw(d0), rdm = raw(dm);
+        bool z = true, n = true;
+        for(size_t k = 0; k < rb1.second; ++k) { z = z && rb0.first[k] == 0.0; n = n && rbm.first[k] == -rb1.first[k]; }
+        for(size_t k = 0; k < rd1.second; ++k) { z = z && rd0.first[k] == 0.0; n = n && rdm.first[k] == 0.5 * rd1.first[k]; }
+        c.count("alpha_checks", 2);
+        c.check(z, kp + "gpdv scale=0", "scale factors 0 do not give zero matrices");
+        c.check(n, kp + "gpdv scale=-1/0.5", "scale_b=-1, scale_d=0.5 do not give -B and D/2");
+      }
+
+      // ---- element orders of the DomainAssembler: elements added in reversed / scrambled order and twice compiled
+      // assemblers give the matrix of compile_all_elements (1e-13); a subset of the elements gives the sum of its cells
+      {
+        const Index nc = Index(mc.geoms.size());
+        CSR all = mk_csr_v();
+        Assembly::assemble_bilinear_operator_matrix_1(dom_asm, all, lap, velo, cn);
+        BCSR<D, D> ball = mk_bcsr_v();
+        {
+          Assembly::BurgersBlockedMatrixAssemblyJob<BCSR<D, D>, VeloSpace, BVec<D>> job(ball, conv, velo, cn);
+          job.deformation = true; job.nu = 0.5; job.theta = 2.0; job.beta = 1.5; job.frechet_beta = 0.25;
+          dom_asm.assemble(job);
+        }
+        std::vector<std::vector<Index>> orders;
+        { std::vector<Index> o; for(Index k = nc; k > 0; --k) o.push_back(k - 1); orders.push_back(o); }
+        { std::vector<Index> o; for(Index k = 0; k < nc; ++k) o.push_back((k * 7 + nc / 2) % nc); std::sort(o.begin(), o.end()); o.erase(std::unique(o.begin(), o.end()), o.end()); if(o.size() == size_t(nc)) { std::vector<Index> p; for(Index k = 0; k < nc; ++k) p.push_back((k * 7 + nc / 2) % nc); orders.push_back(p); } }
+        for(auto& o : orders)
+        {
+          Assembly::DomainAssembler<TrafoType> da(trafo);
+          da.set_max_worker_threads(0);
+          for(Index k : o) da.add_element(k);
+          da.compile();
+          CSR m = mk_csr_v();
+          Assembly::assemble_bilinear_operator_matrix_1(da, m, lap, velo, cn);
+          bool lay = false, bit = false;
+          double d = max_rel_diff(all, m, &lay, &bit);
+          c.count("element_order_checks");
+          c.check(lay && d <= 1e-13, kp + "job.bilinear1 element-order", [&]{ return "matrix depends on the order in which the elements were added: " + std::to_string(d); });
+          BCSR<D, D> bm = mk_bcsr_v();
+          Assembly::BurgersBlockedMatrixAssemblyJob<BCSR<D, D>, VeloSpace, BVec<D>> job(bm, conv, velo, cn);
+          job.deformation = true; job.nu = 0.5; job.theta = 2.0; job.beta = 1.5; job.frechet_beta = 0.25;
+          da.assemble(job);
+          double db = max_rel_diff_b<D, D>(ball, bm, &lay);
+          c.check(lay && db <= 1e-13, kp + "job.burgers-matrix element-order", [&]{ return "matrix depends on the order in which the elements were added: " + std::to_string(db); });
+        }
+        if(nc >= 2)
+        {
+          // two complementary element subsets add up to the full matrix; a subset alone equals the exact integral over its cells
+          CSR sum = mk_csr_v();
+          for(int part = 0; part < 2; ++part)
+          {
+            Assembly::DomainAssembler<TrafoType> da(trafo);
+            da.set_max_worker_threads(0);
+            MeshCtx<Shape_> sub;
+            for(Index k = 0; k < nc; ++k) if(int((k * 5 + k / 3) % 2) == part) { da.add_element(k); sub.geoms.push_back(mc.geoms[k]); }
+            da.compile();
+            CSR m = mk_csr_v();
+            Assembly::assemble_bilinear_operator_matrix_1(da, m, ident, velo, cn);
+            Assembly::assemble_bilinear_operator_matrix_1(da, sum, lap, velo, cn);
+            // 1^T M 1 over the subset == volume of the subset
+            Vec one(velo.get_num_dofs(), 1.0);
+            LD got = bilinear(m, one, one), ex = sub.geoms.empty() ? LD(0) : sub.volume();
+            c.count("element_order_checks");
+            c.check(std::fabs(got - ex) <= LD(1e-11) * (1 + ex), kp + "job.bilinear1 element-subset", [&]{ return "mass over an element subset sums to " + std::to_string(double(got)) + ", subset volume " + std::to_string(double(ex)); });
+          }
+          bool lay = false, bit = false;
+          double d = max_rel_diff(all, sum, &lay, &bit);
+          c.check(lay && d <= 1e-13, kp + "job.bilinear1 element-partition", [&]{ return "two complementary element subsets do not add up to the full matrix: " + std::to_string(d); });
+        }
+      }
+
       // ---- trace assembler
       {
+        // facets added one by one in reversed order == compile_all_facets(outer)
+        {
+          const String ct0 = ShapeInfo<Shape_>::is_simplex ? String("auto-degree:5") : String("gauss-legendre:3");
+          Cubature::DynamicFactory cf0(ct0);
+          Assembly::TraceAssembler<TrafoType> ta(trafo), tb(trafo);
+          ta.compile_all_facets(false, true);
+          // boundary facets = facets with one adjacent cell (harness count over the cells' facet lists)
+          const auto& fc = mc.mesh->template get_index_set<D, D - 1>();
+          std::map<Index, int> cnt;
+          for(Index k = 0; k < Index(mc.geoms.size()); ++k) for(int l = 0; l < fc.num_indices; ++l) cnt[fc(k, l)]++;
+          std::vector<Index> bf;
+          for(auto& kv : cnt) if(kv.second == 1) bf.push_back(kv.first);
+          for(size_t i = bf.size(); i > 0; --i) tb.add_facet(bf[i - 1]);
+          tb.compile();
+          CSR m1 = mk_csr_v(), m2 = mk_csr_v();
+          ta.assemble_operator_matrix1(m1, ident, velo, cf0);
+          tb.assemble_operator_matrix1(m2, ident, velo, cf0);
+          bool lay = false, bit = false;
+          double d = max_rel_diff(m1, m2, &lay, &bit);
+          c.count("element_order_checks");
+          c.check(lay && d <= 1e-13, kp + "trace.matrix1 facet-order", [&]{ return "boundary mass depends on the order in which the facets were added: " + std::to_string(d); });
+        }
         Assembly::TraceAssembler<TrafoType> tr(trafo);
         tr.compile_all_facets(false, true);
         const String ct = ShapeInfo<Shape_>::is_simplex ? String("auto-degree:5") : String("gauss-legendre:3");
@@ -282,6 +431,8 @@ namespace c16h
     spec.bounds_quick = "this binary: tria/quad (c16_history) resp. tetra/hexa (c16_history3d); every 4th mesh of the family";
     spec.bounds_thorough = "every third mesh of the (3D: thorough) family";
     spec.assumptions = {
+      "additionally per entry point: a layout clone of the target taken before the call stays untouched; scaling factor alphabet {0, 1, -1, 0.5} on marker filled "
+      "objects; DomainAssembler element orders (reversed, scrambled), complementary element subsets (partition adds up, subset mass == subset volume), TraceAssembler facet order",
       "classification ACC/FMT is taken from the doc comments ([in,out] + scaling factor = assembles into; 'gets overwritten' / formatted result = FMT); a route that behaves "
       "differently from its classification, or treats two outputs of one call differently, is reported",
       "histories of length 2 only (fresh, refill, marker)"};
